@@ -126,6 +126,20 @@ def run_1d(aa, v, m, salt):
     nfs = aa.util.mask_1d.native_index_for_slim_index_1d_from(mask_1d=m)
     v.ok(dom.exact(np.asarray(nfs), np.flatnonzero(~m)), "Mask1D.native_for_slim", lambda: "%s" % nfs)
     v.ok(int(mask.pixels_in_mask) == int((~m).sum()), "Mask1D.pixels_in_mask")
+    if m.any() and (~m).any():
+        src = m.copy()
+        lab0 = 1.0 + np.arange(L, dtype=float)
+        mk_a = aa.Mask1D(mask=src, pixel_scales=(1.0,))
+        arr_a = aa.Array1D(values=lab0.copy(), mask=mk_a)
+        np.logical_not(src, out=src)
+        v.ok(dom.exact(np.array(mk_a), m), "Mask1D:aliases-caller-array", lambda: "after the source ndarray was inverted in place the mask reads %s" % np.array(mk_a).astype(int).tolist())
+        v.ok(dom.exact(_arr(arr_a.slim), lab0[~m]) and dom.exact(_arr(arr_a.native), np.where(m, 0.0, lab0)), "Array1D:after-caller-edit",
+             lambda: "native=%s" % _arr(arr_a.native).tolist())
+        table = np.flatnonzero(~m)
+        keep_t = table.copy()
+        for rep in range(2):
+            n_t = aa.util.array_1d.array_1d_via_indexes_1d_from(array_1d_slim=lab0[~m].copy(), shape=L, native_index_for_slim_index_1d=table)
+            v.ok(dom.exact(np.asarray(n_t), np.where(m, 0.0, lab0)) and dom.exact(table, keep_t), "array_1d_via_indexes_1d_from:table-reused", "use %d" % (rep + 1))
 
 
 def run_2d(aa, v, m, salt):
@@ -138,6 +152,24 @@ def run_2d(aa, v, m, salt):
     contiguous = rows_full and (len(nz) == 0 or nz[-1] - nz[0] + 1 == len(nz))
     v.nontrivial = bool(m.any()) and not contiguous
     v.outcome = "2d:%dx%d:n%d" % (h, w, int(u.sum()))
+
+    # ---- a mask owns its booleans: structures built on it must not change when the caller re-uses the ndarray it was built
+    # from (scratch buffer for the next mask) or edits a second mask built from the same ndarray
+    if m.any() and u.any():
+        src = m.copy()
+        lab0 = 1.0 + np.arange(n, dtype=float).reshape(h, w)
+        mk_a = aa.Mask2D(mask=src, pixel_scales=1.0)
+        arr_a = aa.Array2D(values=lab0.copy(), mask=mk_a)
+        mk_b = aa.Mask2D(mask=src, pixel_scales=1.0)
+        want_slim, want_nat, want_nfs = lab0[u], np.where(m, 0.0, lab0), np.argwhere(u)
+        for step, edit in (("source ndarray inverted in place", lambda: np.logical_not(src, out=src)),
+                           ("source ndarray rolled in place", lambda: src.__setitem__(Ellipsis, np.roll(src.ravel(), 1).reshape(h, w))),
+                           ("second mask built from the same ndarray edited in place", lambda: mk_b.__setitem__((0, 0), not bool(np.array(mk_b)[0, 0])))):
+            edit()
+            v.ok(dom.exact(np.array(mk_a), m), "Mask2D:aliases-caller-array", lambda: "after %s the first mask reads %s, was built from %s" % (step, np.array(mk_a).astype(int).tolist(), m.astype(int).tolist()))
+            v.ok(dom.exact(np.asarray(mk_a.derive_indexes.native_for_slim), want_nfs) and int(mk_a.pixels_in_mask) == int(u.sum()), "native_for_slim:after-caller-edit", step)
+            v.ok(dom.exact(_arr(arr_a.slim), want_slim) and dom.exact(_arr(arr_a.native), want_nat) and dom.exact(_arr(arr_a.slim.native), want_nat),
+                 "Array2D:after-caller-edit", lambda: "after %s: native=%s" % (step, _arr(arr_a.native).tolist()))
 
     # ---- index tables
     di = mask.derive_indexes
@@ -228,6 +260,20 @@ def run_2d(aa, v, m, salt):
         v.ok(dom.exact(s_u, ref_slim), "array_2d_slim_from", lambda: "%s" % s_u)
         n_u = aa.util.array_2d.array_2d_native_from(array_2d_slim=ref_slim.copy(), mask_2d=m)
         v.ok(dom.exact(n_u, ref_nat), "array_2d_native_from", lambda: "%s" % n_u)
+
+        # the scatter through a caller-held slim-to-native table: the table may be used any number of times
+        if u.any():
+            table = np.array(mask.derive_indexes.native_for_slim).copy()
+            keep_t = table.copy()
+            for rep in range(3):
+                try:
+                    n_t = aa.util.array_2d.array_2d_via_indexes_from(array_2d_slim=ref_slim.copy(), shape=(h, w), native_index_for_slim_index_2d=table)
+                except Exception as e:  # noqa
+                    v.fail("array_2d_via_indexes_from:table-reused", "use %d of one table: %r" % (rep + 1, e))
+                    break
+                v.ok(dom.exact(np.asarray(n_t), ref_nat), "array_2d_via_indexes_from" if rep == 0 else "array_2d_via_indexes_from:table-reused",
+                     lambda: "use %d of one table: %s" % (rep + 1, np.asarray(n_t).tolist()))
+                v.ok(dom.exact(table, keep_t), "array_2d_via_indexes_from:table-mutated", lambda: "after use %d: %s, was %s" % (rep + 1, table.tolist(), keep_t.tolist()))
 
         # ---- Grid2D / VectorYX2D : (y,x) pairs, second component an independent injective labelling
         gv = np.stack([vals, -2.0 * vals + 0.5], axis=-1)
